@@ -46,6 +46,16 @@ Theorem C31_position_is_end_of_file : forall r script expected f resume e f' p' 
 Proof. exact fixed_appends_only. Qed.
 Print Assumptions C31_position_is_end_of_file.
 
+(* with the download cache on: a second call for the same digest after a successful one is served from the cache (hard
+   link, no request, no re-hash); its target is the expected content because the cache entry was made from a verified
+   target. ASSUMES the cached file is not modified between Put and Get (the cache hit itself does not verify). *)
+Theorem C31_cached_target_only_if_match : forall size expected p1 l1 attempts s1 p2 l2 s2,
+  let r := download_twice size expected p1 l1 attempts s1 p2 l2 s2 in
+  (o_err (snd r) = ENone -> o_target (snd r) = Some expected) /\
+  (o_err (snd r) <> ENone -> o_target (snd r) = None).
+Proof. exact cached_target_only_if_match. Qed.
+Print Assumptions C31_cached_target_only_if_match.
+
 (* HISTORICAL, about the code BEFORE commit adc145b (download_before_fix: seek to 0 without truncation when the server
    ignored Range). The full statement was false of it, with a declared and consistent size: finding `stale-tail`,
    repaired in /repo, recorded `fixed:` in KNOWN_FINDINGS. The two inputs stay in the driver as regression cases 7 and 8
